@@ -39,7 +39,7 @@ func Sum(segmentSlices ...[]*traits.ElectricMode_Segment) []*traits.ElectricMode
 
 	if len(result) > 0 {
 		last := result[len(result)-1]
-		if last.Length == nil && last.Magnitude <= 0 {
+		if last.Length == nil && last.Magnitude == 0 {
 			result = result[:len(result)-1]
 		}
 	}
